@@ -32,6 +32,7 @@ func init() {
 			{ID: "C14-R7", Title: "reload re-points only the functions of the reloaded main code (shared with C18-R3)", Floor: 2, Run: c18r3},
 			{ID: "C14-R8", Title: "the validated import path is the path the node keeps", Floor: 2, Run: validatedPathIsStoredPath},
 			{ID: "C14-R9", Title: "a failed import is not remembered", Floor: 1, Run: errorsAreNotCached},
+			{ID: "C14-R10", Title: "Import returns a module object built in that call", Floor: 2, Run: importersReturnFreshModules},
 		},
 	})
 }
@@ -414,8 +415,8 @@ func c14r3(c *core.Ctx) {
 				for _, o := range core.Origins(pathArg) {
 					if callee := core.CalleeOfValue(o); callee != nil && callee.Pkg != nil && (callee.Pkg.Pkg.Path() == "path/filepath" || callee.Pkg.Pkg.Path() == "path") && callee.Name() == "Join" {
 						okj = true
-					} else if bo, ok := o.(*ssa.BinOp); ok && bo.Op == token.ADD {
-						okj = true // name + extension (fs.FS paths are rooted by the FS itself)
+					} else if bo, ok := o.(*ssa.BinOp); ok && bo.Op == token.ADD && !strings.HasPrefix(name, "os.") {
+						okj = true // name + extension: fs.FS paths are rooted by the FS itself; a host path is never glued together (an empty root would turn into "/")
 					} else {
 						okj = false
 						break
